@@ -200,6 +200,22 @@ func runC18(w *W) {
 		add(math.Nextafter(f, math.Inf(-1)))
 		add(-f)
 	}
+	// d x 10^k and dd x 10^k for every k: short digit strings with long runs of zeros on either side of
+	// the decimal point (the widest plain-decimal outputs are d x 1e20 and 1e-6 x d)
+	for k := -323; k <= 308; k++ {
+		for _, m := range []string{"2", "3", "4", "5", "6", "7", "8", "9", "11", "25", "99"} {
+			f, err := strconv.ParseFloat(m+"e"+strconv.Itoa(k), 64)
+			if err != nil || math.IsInf(f, 0) {
+				continue
+			}
+			add(f)
+			if k >= -8 && k <= 22 {
+				add(-f)
+				add(math.Nextafter(f, math.Inf(1)))
+				add(math.Nextafter(f, math.Inf(-1)))
+			}
+		}
+	}
 	// the format switches +- 3 ulps
 	for _, c := range []float64{1e-6, 1e21, 1e-5, 1e20, 1e22, 1e-7} {
 		f := c
